@@ -660,6 +660,15 @@ pub fn check(prop: &str, tier: Tier) -> i32 {
             e.0 = *n;
         }
     }
+    let mut extra_counters: BTreeMap<String, u64> = BTreeMap::new();
+    if prop == "C17" {
+        // the other three backends (out of process), see c17x.rs
+        let excluded: BTreeSet<usize> = h.excluded.iter().map(|x| x.0).collect();
+        if let Err(e) = crate::c17x::other_backends(tier, &h.states, &excluded, &mut rep, &mut extra_counters) {
+            eprintln!("machinery: {e}");
+            return 2;
+        }
+    }
     ev.set("states", json!(h.explored_states));
     ev.set("transitions", json!(h.explored_transitions));
     ev.set("compiled_states", json!(h.states.len()));
@@ -672,8 +681,11 @@ pub fn check(prop: &str, tier: Tier) -> i32 {
     let capped = h.strata.iter().any(|(_, _, n, t)| t < n);
     ev.set("exhaustive", json!(!capped));
     ev.set("harness_build_s", json!(h.build_s));
-    let counters: BTreeMap<String, u64> = merged.counters.clone();
-    let validated: u64 = ["decode-inputs", "values", "parent-values", "child-values", "integers"].iter().map(|k| counters.get(*k).copied().unwrap_or(0)).sum();
+    let mut counters: BTreeMap<String, u64> = merged.counters.clone();
+    for (k, v) in extra_counters {
+        *counters.entry(k).or_default() += v;
+    }
+    let validated: u64 = ["decode-inputs", "values", "parent-values", "child-values", "integers", "python-twin-values", "cxx-twin-values", "java-twin-values"].iter().map(|k| counters.get(*k).copied().unwrap_or(0)).sum();
     ev.set("traces_validated_against_impl", json!(validated));
     ev.set("outcomes", json!(counters));
     ev.set("samples", json!(merged.samples));
@@ -713,7 +725,7 @@ fn rule_text(prop: &str) -> &'static str {
         "C05" => "for every type and every explored value including out-of-range ones (2^w, backing max, one element/byte too many, unequal element sizes, contradictory flags): encode never panics, unrepresentable => the matching EncodeError variant, representable => Ok, and bytes written == encoded_len()",
         "C06" => "for every parent type of an unambiguous inheritance tree: parent values = every Ok decode of the input set + Parent::try_from(child value) for every explored child value; specialize() == model.specialize (child / Err / None, with the size rule); Child::try_from fails with ConstraintValueError iff the model finds a violated constraint; Parent::try_from(child) carries the constraint values, encodes to the child's bytes and converts back",
         "C15" => "for every enum of the compiled states: all integers of the backing type for backing types <= 16 bits, otherwise 0, max, 2^w, backing max, every power of two +-1 and x-1, x, x+1 around every tag value and range bound: TryFrom accepts iff the reference does, the variant is the named tag or the range/default variant carrying x, conversion back and every widening From give x",
-        "C17" => "for every type and explored value: the little- and big-endian modules encode to the same length and the big-endian bytes equal the little-endian bytes with every chunk of the model's layout (bit-field group, multi-byte array element, optional scalar/enum, sized custom field) reversed",
+        "C17" => "for every type and explored value: the little- and big-endian modules encode to the same length and the big-endian bytes equal the little-endian bytes with every chunk of the model's layout (bit-field group, multi-byte array element, optional scalar/enum, sized custom field) reversed. Python, C++ and Java: for every 6th (quick) / every (thorough) state of each backend's supported set the generated little- and big-endian code serializes every explored value out of process; same oracle on the backend's own bytes (the model contributes only the chunk map)",
         _ => "",
     }
 }
